@@ -10,6 +10,7 @@ import (
 	"time"
 
 	"github.com/miekg/dns"
+	"github.com/semihalev/sdns/config"
 
 	"verifsim/authsim"
 	"verifsim/kit"
@@ -27,6 +28,7 @@ type C13Op struct {
 	Type       uint16 `json:"type"`
 	CD         bool   `json:"cd,omitempty"`
 	DeadlineMs int    `json:"deadline_ms,omitempty"` // client-side deadline (request-local cause)
+	Sub        int    `json:"sub,omitempty"`         // 1-based index into c13Subnets: the client-subnet option sent (ECS scenarios)
 }
 
 type C13Outage struct {
@@ -43,6 +45,7 @@ type C13Scenario struct {
 	Size       int         `json:"size"`
 	RFC9520Off bool        `json:"rfc9520_off,omitempty"`
 	Budget     uint32      `json:"budget,omitempty"` // enforce-mode outbound budget (0 = firewall shadow)
+	ECS        bool        `json:"ecs,omitempty"`    // client-subnet forwarding on: questions have audiences
 	Outages    []C13Outage `json:"outages"`
 	Ops        []C13Op     `json:"ops"`
 }
@@ -61,7 +64,7 @@ func init() {
 			"distinct = hash of (phase, reply class, suppressed) sequence.",
 		Assumptions: []string{
 			"a failure counts as genuine only when the whole resolution ran inside an outage window of the zone and had the full query timeout available",
-			"the single-probe clause (one leader after a back-off expires) is not asserted; ECS audiences are exercised by C19",
+			"the single-probe clause (one leader after a back-off expires) is not asserted; ECS audiences are exercised with forwarding at the default ceiling and three client subnets in two audiences, on a name that fails by its own data (an alias loop in a healthy zone)",
 		},
 		Components: kit.Components{
 			Real: []string{"full default middleware chain", "failure cache", "resolver zone-failure recording", "recursion work ledger"},
@@ -76,6 +79,19 @@ func init() {
 		Quick:    1200,
 		Thorough: 60000,
 	})
+}
+
+// c13Subnets: client-subnet options; the first two are one audience (same /24), the third another.
+var c13Subnets = []string{"198.51.100.7", "198.51.100.200", "203.0.113.9"}
+
+// c13Audience is the partition a question failure belongs to: the subnet sdns forwards for the
+// client (ceiling /24), or the shared audience.
+func c13Audience(sc *C13Scenario, op C13Op) string {
+	if !sc.ECS || op.Sub <= 0 || op.Sub > len(c13Subnets) {
+		return "shared"
+	}
+	pf, _ := netip.MustParseAddr(c13Subnets[op.Sub-1]).Prefix(24)
+	return pf.String()
 }
 
 var c13Zones = []string{"alpha.test.", "beta.test.", "sub.alpha.test.", "gamma.test."}
@@ -106,6 +122,12 @@ func genC13(r *kit.RNG) *C13Scenario {
 	} else if r.Chance(0.3) {
 		names = append(names, "www.gamma.test.", "mail.gamma.test.")
 	}
+	if r.Chance(0.35) {
+		// questions with audiences, and a name that fails on its own (an alias loop) while its
+		// zone is healthy: the failure belongs to the question and to the audience that asked
+		sc.ECS = true
+		names = append(names, "loop.beta.test.", "loop.beta.test.", "loop.beta.test.")
+	}
 	n := r.Range(6, 30)
 	t := 0
 	for i := 0; i < n; i++ {
@@ -113,6 +135,9 @@ func genC13(r *kit.RNG) *C13Scenario {
 		op := C13Op{AtMs: t, Name: kit.Pick(r, names), Type: uint16(kit.Pick(r, []int{1, 1, 1, 28, 16})), CD: r.Chance(0.15)}
 		if i > 0 && r.Chance(0.5) {
 			op.Name, op.Type = sc.Ops[r.Intn(len(sc.Ops))].Name, sc.Ops[r.Intn(len(sc.Ops))].Type
+		}
+		if sc.ECS && r.Chance(0.6) {
+			op.Sub = 1 + r.Intn(len(c13Subnets))
 		}
 		if r.Chance(0.12) {
 			op.DeadlineMs = kit.Pick(r, []int{50, 300, 1500})
@@ -124,6 +149,9 @@ func genC13(r *kit.RNG) *C13Scenario {
 			rep := op
 			rep.AtMs = t + kit.Pick(r, []int{200, 800, 2000})
 			rep.DeadlineMs = 0
+			if sc.ECS && r.Chance(0.6) {
+				rep.Sub = r.Intn(len(c13Subnets) + 1) // the same question from another audience (or the same one)
+			}
 			sc.Ops = append(sc.Ops, rep)
 		}
 		t += 7000 // leave room for the slowest resolution before the next question
@@ -139,7 +167,8 @@ func c13Spec(sc *C13Scenario) *world.Spec {
 		{Name: "alpha.test.", NSNames: []string{"ns1.alpha.test.", "ns2.alpha.test."}, Addrs: []string{"192.0.2.21", "192.0.2.22"}, NSTTL: 86400,
 			Records: []string{"ns1.alpha.test. 86400 IN A 192.0.2.21", "ns2.alpha.test. 86400 IN A 192.0.2.22", "www.alpha.test. 5 IN A 10.0.0.1", "mail.alpha.test. 5 IN A 10.0.0.2", "alpha.test. 5 IN A 10.0.0.3", "www.alpha.test. 5 IN TXT \"t\""}},
 		{Name: "beta.test.", NSNames: []string{"ns1.beta.test.", "ns2.beta.test."}, Addrs: []string{"192.0.2.31", "192.0.2.32"}, NSTTL: 86400,
-			Records: []string{"ns1.beta.test. 86400 IN A 192.0.2.31", "ns2.beta.test. 86400 IN A 192.0.2.32", "www.beta.test. 5 IN A 10.0.1.1"}},
+			Records: []string{"ns1.beta.test. 86400 IN A 192.0.2.31", "ns2.beta.test. 86400 IN A 192.0.2.32", "www.beta.test. 5 IN A 10.0.1.1",
+				"loop.beta.test. 5 IN CNAME loop2.beta.test.", "loop2.beta.test. 5 IN CNAME loop.beta.test."}},
 		{Name: "sub.alpha.test.", NSNames: []string{"ns1.sub.alpha.test."}, Addrs: []string{"192.0.2.41"}, NSTTL: 86400,
 			Records: []string{"ns1.sub.alpha.test. 86400 IN A 192.0.2.41", "www.sub.alpha.test. 5 IN A 10.0.2.1"}},
 	}
@@ -156,6 +185,9 @@ func c13Spec(sc *C13Scenario) *world.Spec {
 	sp.Cfg.RFC9520Off = sc.RFC9520Off
 	sp.Cfg.QueryTimeoutS = 6
 	sp.Cfg.Expire = 5
+	if sc.ECS {
+		sp.Cfg.ECS = &config.ECSConfig{Enabled: true}
+	}
 	if sc.Budget > 0 {
 		sp.Cfg.Firewall = "enforce"
 		sp.Cfg.MaxOutbound = sc.Budget
@@ -302,6 +334,10 @@ func execC13(sc *C13Scenario, tr *kit.Trace, res *kit.Result) {
 		q.RecursionDesired = true
 		q.CheckingDisabled = op.CD
 		q.SetEdns0(1232, false)
+		if sc.ECS && op.Sub > 0 && op.Sub <= len(c13Subnets) {
+			o := q.IsEdns0()
+			o.Option = append(o.Option, &dns.EDNS0_SUBNET{Code: dns.EDNS0SUBNET, Family: 1, SourceNetmask: 32, Address: net.ParseIP(c13Subnets[op.Sub-1]).To4()})
+		}
 		sentBefore := w.Net.SentCount()
 		ctx := context.Background()
 		var cancel context.CancelFunc
@@ -318,7 +354,8 @@ func execC13(sc *C13Scenario, tr *kit.Trace, res *kit.Result) {
 		kit.SleepSettle(300 * time.Millisecond)
 		done := since()
 		upstream := w.Net.SentCount() - sentBefore
-		qkey := fmt.Sprintf("%s/%d/%v", dns.CanonicalName(op.Name), op.Type, op.CD)
+		qkey := fmt.Sprintf("%s/%d/%v/%s", dns.CanonicalName(op.Name), op.Type, op.CD, c13Audience(sc, op))
+		selfFailing := strings.HasPrefix(op.Name, "loop.") // fails by its own data; its zone is healthy
 		zone := zoneOf(op.Name, arrive)
 		rc, ede := "none", ""
 		var m *dns.Msg
@@ -331,9 +368,9 @@ func execC13(sc *C13Scenario, tr *kit.Trace, res *kit.Result) {
 			rc, ede = dns.RcodeToString[m.Rcode], edeText(m)
 		}
 		suppressed := m != nil && m.Rcode == dns.RcodeServerFailure && upstream == 0 && strings.HasPrefix(ede, "13 ")
-		tr.AddAt(arrive, "op %d %s/%s cd=%v deadline=%dms -> %s ede=%q upstream=%d lat=%v", i, op.Name, dns.TypeToString[op.Type], op.CD, op.DeadlineMs, rc, ede, upstream, lat)
+		tr.AddAt(arrive, "op %d %s/%s cd=%v aud=%s deadline=%dms -> %s ede=%q upstream=%d lat=%v", i, op.Name, dns.TypeToString[op.Type], op.CD, c13Audience(sc, op), op.DeadlineMs, rc, ede, upstream, lat)
 		tr.Shape(fmt.Sprintf("%s|%v|%v", rc, suppressed, op.DeadlineMs > 0))
-		octx := fmt.Sprintf("op %d %s/%s cd=%v at %v (min %ds max %ds): reply %s ede=%q upstream=%d", i, op.Name, dns.TypeToString[op.Type], op.CD, arrive, sc.MinS, sc.MaxS, rc, ede, upstream)
+		octx := fmt.Sprintf("op %d %s/%s cd=%v audience %s at %v (min %ds max %ds): reply %s ede=%q upstream=%d", i, op.Name, dns.TypeToString[op.Type], op.CD, c13Audience(sc, op), arrive, sc.MinS, sc.MaxS, rc, ede, upstream)
 		if suppressed {
 			res.Nontrivial = true
 			res.Probes["suppressed"]++
@@ -365,6 +402,12 @@ func execC13(sc *C13Scenario, tr *kit.Trace, res *kit.Result) {
 				if lf, ok := localFail[qkey]; ok {
 					seen = append(seen, fmt.Sprintf("request-local failure %v ago", arrive-lf))
 				}
+				base := qkey[:strings.LastIndex(qkey, "/")+1]
+				for k, f := range qFails {
+					if k != qkey && strings.HasPrefix(k, base) {
+						seen = append(seen, fmt.Sprintf("the same question failed %v ago for another audience (%s)", arrive-f.at, k[len(base):]))
+					}
+				}
 				res.Fail("C13/suppression-not-justified", "%s: no genuine failure of this question or of a zone above it lies within its back-off window (%s)", octx, strings.Join(seen, "; "))
 				return
 			}
@@ -390,10 +433,24 @@ func execC13(sc *C13Scenario, tr *kit.Trace, res *kit.Result) {
 			}
 			local := strings.Contains(ede, "budget") ||
 				(op.DeadlineMs > 0 && !fastFailureOnPath && (o1 == nil || o1.Kind == "silent" || o1.Kind == "slow"))
+			if selfFailing && op.DeadlineMs > 0 && lat < time.Duration(op.DeadlineMs)*time.Millisecond-5*time.Millisecond && !strings.Contains(ede, "budget") {
+				local = false // the loop was found out well before the client's deadline: a genuine failure
+			}
 			if op.DeadlineMs > 0 && !local {
 				o1 = nil // fast failure rcodes under a deadline: either reading is legitimate
 			}
-			if o1 != nil && strings.HasPrefix(o1.Kind, "partial") {
+			if selfFailing && !local && inOutage(zone, arrive) == nil && inOutage(zone, done) == nil && upstream > 0 {
+				// the alias loop: the zone answered every query; the failure is the question's
+				// (and the asking audience's) alone
+				f := qFails[qkey]
+				if f == nil {
+					f = &c13Fail{}
+					qFails[qkey] = f
+				}
+				f.streak++
+				f.at = done
+				res.Probes["question-only-failure"]++
+			} else if o1 != nil && strings.HasPrefix(o1.Kind, "partial") {
 				// one server of the zone was answering all along: whatever sdns made of this
 				// question, the zone did not fail. Only the exact question may be remembered.
 				f := qFails[qkey]
